@@ -121,6 +121,10 @@ type aEdit struct {
 	NoSQLite, OnlyNamedDialects bool
 	// BaseDefault: token of the default t3.c1 has in the base of this edit (0: none)
 	BaseDefault int
+	// BasePartAttr: attribute token of the second part of t1.i2 in the base of this edit; OnlyDialect
+	// restricts the edit to one dialect
+	BasePartAttr int
+	OnlyDialect  string
 }
 
 func tIdx(ts []aTable, name int) int {
@@ -270,6 +274,20 @@ func c02Catalogue() []aEdit {
 		ts[i].Idxs[1].Parts[0].Attr = 0
 		return ts
 	}).NoSQLite = true
+	// PostgreSQL operator classes: same class with another parameter value, another class
+	for _, ab := range [][2]int{{2, 3}, {3, 2}, {2, 4}, {4, 2}, {2, 5}} {
+		ab := ab
+		e := add(fmt.Sprintf("modify-index-opclass %d->%d", ab[0], ab[1]), []string{"1:modifyIndex 2 [2]"}, func(ts []aTable) []aTable {
+			i := tIdx(ts, 1)
+			for k := range ts[i].Idxs {
+				if ts[i].Idxs[k].Name != nil && *ts[i].Idxs[k].Name == 2 {
+					ts[i].Idxs[k].Parts[1].Attr = ab[1]
+				}
+			}
+			return ts
+		})
+		e.BasePartAttr, e.OnlyDialect = ab[0], "postgres"
+	}
 	add("modify-index-unique+parts", []string{"1:modifyIndex 2 [0 2]"}, func(ts []aTable) []aTable {
 		i := tIdx(ts, 1)
 		ts[i].Idxs[1].Unique = true
@@ -373,6 +391,12 @@ func c02TextDefault(tok int) string {
 var c02Actions = []schema.ReferenceOption{schema.NoAction, schema.Cascade, schema.SetNull, schema.Restrict}
 
 func c02Build(d string, ts []aTable) *schema.Schema {
+	// "sqlite-numfk": SQLite with unnamed foreign keys, which the inspection labels "0", "1", ... by their
+	// position in the table definition (the label changes when the declaration order changes)
+	numFK := d == "sqlite-numfk"
+	if numFK {
+		d = "sqlite"
+	}
 	name := map[string]string{"mysql": "public", "postgres": "public", "sqlite": "main"}[d]
 	s := schema.New(name)
 	tabs := map[int]*schema.Table{}
@@ -412,8 +436,16 @@ func c02Build(d string, ts []aTable) *schema.Schema {
 				case "mysql":
 					ip.Attrs = append(ip.Attrs, &mysql.SubPart{Len: 10 * p.Attr})
 				case "postgres":
-					// the non-default NULLS ordering of the part's direction
-					ip.Attrs = append(ip.Attrs, &postgres.IndexColumnProperty{NullsFirst: !p.Desc, NullsLast: p.Desc})
+					switch p.Attr {
+					case 1:
+						// the non-default NULLS ordering of the part's direction
+						ip.Attrs = append(ip.Attrs, &postgres.IndexColumnProperty{NullsFirst: !p.Desc, NullsLast: p.Desc})
+					case 4:
+						ip.Attrs = append(ip.Attrs, &postgres.IndexOpClass{Name: "text_pattern_ops"})
+					default:
+						// an operator class with a parameter: same class, another parameter value per token
+						ip.Attrs = append(ip.Attrs, &postgres.IndexOpClass{Name: "gist_trgm_ops", Params: []struct{ N, V string }{{"siglen", fmt.Sprint(16 * p.Attr)}}})
+					}
 				}
 			}
 			ix.AddParts(ip)
@@ -440,8 +472,12 @@ func c02Build(d string, ts []aTable) *schema.Schema {
 			parts(t, ix, ai.Parts, ai.Perm)
 			t.AddIndexes(ix)
 		}
-		for _, af := range at.FKs {
-			fk := schema.NewForeignKey(fmt.Sprintf("fk%d", af.Symbol)).SetTable(t).SetOnUpdate(c02Actions[af.OnUpdate%4]).SetOnDelete(c02Actions[af.OnDelete%4])
+		for fi, af := range at.FKs {
+			sym := fmt.Sprintf("fk%d", af.Symbol)
+			if numFK {
+				sym = fmt.Sprint(fi)
+			}
+			fk := schema.NewForeignKey(sym).SetTable(t).SetOnUpdate(c02Actions[af.OnUpdate%4]).SetOnDelete(c02Actions[af.OnDelete%4])
 			for _, c := range af.Cols {
 				fk.AddColumns(col(t, c))
 			}
@@ -655,11 +691,19 @@ func runC02(e *Env) error {
 			if ed.NoSQLite && d == "sqlite" {
 				continue
 			}
+			if ed.OnlyDialect != "" && ed.OnlyDialect != d {
+				continue
+			}
 			base := base
 			if ed.BaseDefault != 0 {
 				base = cloneTables(base)
 				i := tIdx(base, 3)
 				base[i].Cols[0].Attrs[2] = ed.BaseDefault
+			}
+			if ed.BasePartAttr != 0 {
+				base = cloneTables(base)
+				i := tIdx(base, 1)
+				base[i].Idxs[1].Parts[1].Attr = ed.BasePartAttr
 			}
 			jobs = append(jobs, job{d, "edit:" + ed.Desc, base, ed.Apply(cloneTables(base)), ed.Expect})
 			jobs = append(jobs, job{d, "edit+reorder:" + ed.Desc, base, shuffleTables(r, ed.Apply(cloneTables(base))), ed.Expect})
@@ -677,7 +721,7 @@ func runC02(e *Env) error {
 			usedObj := map[string]bool{}
 			for tries := 0; len(descs) < n && tries < 30; tries++ {
 				ed := cat[r.Intn(len(cat))]
-				if ed.NoSQLite && d == "sqlite" || ed.BaseDefault != 0 {
+				if ed.NoSQLite && d == "sqlite" || ed.BaseDefault != 0 || ed.BasePartAttr != 0 {
 					continue
 				}
 				objs := editTables(ed)
@@ -700,6 +744,23 @@ func runC02(e *Env) error {
 				descs = append(descs, "reordered")
 			}
 			jobs = append(jobs, job{d, fmt.Sprintf("set-%d:%s", k, strings.Join(descs, " + ")), base, edited, expect})
+		}
+	}
+	// SQLite with unnamed (position-numbered) foreign keys: identity, reorderings and every edit that does not
+	// touch a foreign key, with the foreign keys of the edited side declared in another order
+	{
+		d := "sqlite-numfk"
+		base := c02Base()
+		r := hx.NewRand(e.Seed, "c02-numfk")
+		jobs = append(jobs, job{d, "identity", base, base, nil})
+		for k := 0; k < 30; k++ {
+			jobs = append(jobs, job{d, fmt.Sprintf("reorder-%d", k), base, shuffleTables(r, base), nil})
+		}
+		for _, ed := range cat {
+			if ed.NoSQLite || ed.BaseDefault != 0 || ed.BasePartAttr != 0 || ed.OnlyDialect != "" || strings.Contains(ed.Desc, "fk") || strings.Contains(ed.Desc, "table") {
+				continue
+			}
+			jobs = append(jobs, job{d, "edit+reorder:" + ed.Desc, base, shuffleTables(r, ed.Apply(cloneTables(base))), ed.Expect})
 		}
 	}
 	parallel(e.Workers, len(jobs), func(i int) {
